@@ -230,4 +230,29 @@ def loadFilter (b : Bytes) : Option Filter :=
               | .error .other => none
               | .ok (n, r4) => some ⟨bits, UInt32.ofNat hf, UInt32.ofNat tw, r4.take n⟩  -- loop stops silently at the end
 
+/-! ### the encoder side: `FilterLoad.Serialize` -/
+
+/-- `n` as `k` little-endian bytes -/
+def leBytes : Nat → Nat → Bytes
+  | 0, _ => []
+  | k + 1, n => UInt8.ofNat (n % 256) :: leBytes k (n / 256)
+
+/-- `common.WriteVarUint` -/
+def writeVarUint (n : Nat) : Bytes :=
+  if n < 0xfd then [UInt8.ofNat n]
+  else if n ≤ 0xffff then 0xfd :: leBytes 2 n
+  else if n ≤ 0xffffffff then 0xfe :: leBytes 4 n
+  else 0xff :: leBytes 8 n
+
+/-- `FilterLoad.Serialize` (after its own size checks passed) -/
+def encodeFilterLoad (f : Filter) (flags : UInt8) : Bytes :=
+  writeVarUint f.bits.length ++ f.bits ++ leBytes 4 f.hashFuncs.toNat ++ leBytes 4 f.tweak.toNat ++ [flags] ++
+    writeVarUint f.txTypes.length ++ f.txTypes
+
+/-- `FilterLoad.Serialize` with its two size checks; `none` = an error is returned -/
+def serializeFilterLoad (f : Filter) (flags : UInt8) : Option Bytes :=
+  if f.bits.length > maxFilterLoadFilterSize then none
+  else if f.hashFuncs.toNat > maxFilterLoadHashFuncs then none
+  else some (encodeFilterLoad f flags)
+
 end ElaVerif.Bloom
